@@ -77,7 +77,10 @@ def modelDepth (l : Lang) (b : Body) : Nat :=
 def explain (l : Lang) (b : Body) : List String :=
   if modelDepth l b == docFn b then [] else
   match l with
-  | .py => ["F01a"] ++ (if docB 2 1 b != docB 1 1 b then ["F01b"] else [])
+  | .py =>
+    if modelDepth l b + 1 == docFn b then ["F01a"]                                  -- documented depth − 1
+    else if modelDepth l b + 1 == max 1 (docB 2 1 b) then ["F01a", "F01b"]          -- … and `match` counting two levels (repaired)
+    else ["unexplained"]
   | _ => ["unexplained"]
 
 def shapeOf (l : Lang) (b : Body) : String :=
